@@ -1,4 +1,4 @@
 #!/bin/bash
 # dev helper: run several properties one after another, logs under /tmp
 cd /verif
-for p in "$@"; do python3 run.py $p --no-replay --jobs 12 > /tmp/run_$p.txt 2>&1; done
+for p in "$@"; do python3-vt run.py $p --jobs 12 > /tmp/run_$p.txt 2>&1; done
